@@ -5,6 +5,7 @@ import (
 	"go/constant"
 	"go/token"
 	"go/types"
+	"strings"
 )
 
 const sdkTrace = "go.opentelemetry.io/otel/sdk/trace"
@@ -1087,4 +1088,84 @@ func ruleFlushWaitStops(c *Ctx, ix *PkgIndex, rule string) {
 	}
 	c.Check(bad == "", rule, "sdk/trace|(*batchSpanProcessor).ForceFlush|the wait for the marker also ends when the processor stops", at(ix.M, pos), itoa(n)+" wait(s), each with an arm on stopCh",
 		"a ForceFlush that enqueues its marker after Shutdown has completed (the queue has no reader any more) waits for an acknowledgement nobody sends — with a context without deadline it blocks forever: "+bad)
+}
+
+// ruleBspStoppedSync: "nothing is exported after Shutdown has returned" for the batch span processor rests on a flag that Shutdown
+// sets itself, before anything it does asynchronously, and that OnEnd tests before it queues a span. A state that only the
+// goroutine Shutdown spawns establishes (closing stopCh) is not yet there when Shutdown returns early on a done context.
+// Shared by C15.R3 and C01 (where R5/R7 decide the same with more detail).
+func ruleBspStoppedSync(c *Ctx, ix *PkgIndex, rule string) {
+	info := ix.Pkg.TypesInfo
+	fStopped := lookupField(ix.Pkg, "batchSpanProcessor", "stopped")
+	sh := c.Fn(ix, rule, "(*batchSpanProcessor).Shutdown")
+	onEnd := c.Fn(ix, rule, "(*batchSpanProcessor).OnEnd")
+	if fStopped == nil {
+		c.Missing(rule, "sdk/trace.batchSpanProcessor.stopped")
+		return
+	}
+	if sh == nil || onEnd == nil {
+		return
+	}
+	// (a) Shutdown stores true into the flag outside any goroutine it starts
+	syncStore := false
+	for _, f := range append([]*FuncInfo{sh}, litsOf(ix, sh)...) {
+		inGo := false
+		for g := f; g != nil && g.Lit != nil; g = ix.Parent[g.Lit] {
+			if ix.Use[g.Lit] == LitGo {
+				inGo = true
+			}
+		}
+		if inGo {
+			continue
+		}
+		inspectNoLit(f.Body(), func(n ast.Node) bool {
+			if call := fieldMethodCall(info, n, fStopped, "Store"); call != nil && len(call.Args) == 1 {
+				if tv := info.Types[call.Args[0]]; tv.Value != nil && constant.BoolVal(tv.Value) {
+					syncStore = true
+				}
+			}
+			if call := fieldMethodCall(info, n, fStopped, "Swap"); call != nil {
+				syncStore = true
+			}
+			if call := fieldMethodCall(info, n, fStopped, "CompareAndSwap"); call != nil {
+				syncStore = true
+			}
+			return true
+		})
+	}
+	c.Check(syncStore, rule, "sdk/trace|(*batchSpanProcessor).Shutdown|the stopped flag is set by Shutdown itself, not by a goroutine it starts", at(ix.M, sh.Pos()), "synchronous store",
+		"when Shutdown returns (for instance at once, on a context that is already done) the state OnEnd tests is not established yet: a span ended after Shutdown returned is still queued and exported")
+	// (b) OnEnd queues only past the false outcome of the flag
+	g := ix.FG(onEnd)
+	n, bad := 0, ""
+	for _, x := range g.Nodes {
+		if x.N == nil {
+			continue
+		}
+		isEnq := false
+		inspectNoLit(x.N, func(m ast.Node) bool {
+			if call, ok := m.(*ast.CallExpr); ok {
+				if cf := callee(info, call); cf != nil && strings.HasPrefix(cf.Name(), "enqueue") {
+					isEnq = true
+				}
+			}
+			return true
+		})
+		if !isEnq {
+			continue
+		}
+		n++
+		d, why := g.DominatedByEdges(x, func(e *GEdge) bool {
+			return edgeImplies(e, func(cnd ast.Expr, pol int) bool {
+				return pol < 0 && fieldMethodCall(info, cnd, fStopped, "Load") != nil
+			})
+		})
+		if !d {
+			bad = why
+		}
+	}
+	if n > 0 {
+		c.Check(bad == "", rule, "sdk/trace|(*batchSpanProcessor).OnEnd|a span is queued only while the stopped flag is false", at(ix.M, onEnd.Pos()), itoa(n)+" enqueue call(s) behind !stopped.Load()",
+			"OnEnd queues spans without consulting the flag Shutdown sets: "+bad)
+	}
 }
